@@ -430,6 +430,10 @@ func (tps *TPS) waitForDeCommitmentDistribution(ctx context.Context) {
 }
 
 func (tps *TPS) combineShares() PK {
+	// Messages of the peers are handled concurrently and record their public keys in the same map
+	tps.lock.Lock()
+	defer tps.lock.Unlock()
+
 	for _, party := range tps.parties {
 		if party == tps.Party {
 			continue
